@@ -29,6 +29,7 @@ mod status;
 mod rpid;
 mod cbor;
 mod ceremony;
+mod client;
 
 fn main() {
     let args: Vec<String> = std::env::args().collect();
@@ -44,6 +45,7 @@ fn main() {
         "authdata-decode" => guarded(move || status::authdata_decode(&arg)),
         "cbor-bytes" => guarded(move || cbor::bytes(&hex(&arg))),
         "cbor-make-credential-request" => guarded(move || cbor::mc_request(&hex(&arg))),
+        "client-ceremonies" => guarded(move || client::sweep()),
         "ceremony" => guarded(move || ceremony::run(&arg)),
         "c18-trait" => ceremony::c18(&arg),
         "rpid-web" => guarded(move || rpid::web(&arg)),
